@@ -16,6 +16,8 @@ broadcast use {vstd::std_specs::iter::filter_postcondition, lemma_take_filter_in
 // #[path]-included: serde derives).
 //@item src/config/mod.rs struct RawConfig
 //@item src/config/mod.rs struct Config
+//@item src/config/mod.rs struct Tool
+//@item src/config/mod.rs struct PyProjectToml
 
 // ---- abstract views and the operational specification (L1 target) --------------------------------
 pub struct RawV { pub exclude: Seq<Seq<char>>, pub disabled: Seq<Seq<char>>, pub fixture_paths: Seq<Seq<char>>, pub skip_plugins: Seq<Seq<char>> }
@@ -54,8 +56,36 @@ pub proof fn lemma_valid_codes(l: Seq<Seq<char>>, x: Seq<char>)
     ensures l.contains(x) == valid_code(x),
 {}
 
-/// the configuration Config::parse builds from a pyproject.toml text (toml + from_raw: abstract here)
-pub uninterp spec fn parse_cfg(content: Seq<char>) -> CfgV;
+/// TOML + serde deserialisation of the whole text into PyProjectToml: abstract (None = the text is not valid TOML /
+/// does not fit the schema)
+pub uninterp spec fn toml_parse(content: Seq<char>) -> Option<PyProjectToml>;
+pub open spec fn empty_raw() -> RawV { RawV { exclude: Seq::empty(), disabled: Seq::empty(), fixture_paths: Seq::empty(), skip_plugins: Seq::empty() } }
+/// the [tool.pytest-language-server] table of a parsed file, all-empty when the table (or [tool]) is absent
+pub closed spec fn raw_of_toml(p: PyProjectToml) -> RawV {
+    match p.tool { Some(t) => match t.pytest_language_server { Some(r) => raw_view(&r), None => empty_raw() }, None => empty_raw() }
+}
+/// the configuration Config::parse builds from a pyproject.toml text: defaults when the text does not parse,
+/// otherwise from_raw of the table
+pub open spec fn parse_cfg(content: Seq<char>) -> CfgV {
+    match toml_parse(content) { None => empty_cfg(), Some(p) => op_from_raw(raw_of_toml(p)) }
+}
+pub mod toml {
+    use super::*;
+    pub mod de { #[allow(dead_code)] pub struct Error { _p: () } }
+    // ASSUMED: toml::from_str::<PyProjectToml> is a total function of the text (never panics)
+    #[verifier::external_body]
+    pub fn from_str(content: &str) -> (r: Result<PyProjectToml, de::Error>)
+        ensures match r { Ok(p) => toml_parse(content@) == Some(p), Err(_) => toml_parse(content@) is None }
+    { unimplemented!() }
+}
+pub trait VpUnwrapOrDefault { fn vp_unwrap_or_default(self) -> RawConfig; }
+impl VpUnwrapOrDefault for Option<RawConfig> {
+    // ASSUMED: derive(Default) on RawConfig is the all-empty value
+    #[verifier::external_body]
+    fn vp_unwrap_or_default(self) -> (r: RawConfig)
+        ensures match self { Some(x) => r == x, None => raw_view(&r) == empty_raw() }
+    { unimplemented!() }
+}
 pub open spec fn empty_cfg() -> CfgV { CfgV { exclude: Seq::empty(), disabled: Seq::empty(), fixture_paths: Seq::empty(), skip_plugins: Seq::empty() } }
 /// content of a file on disk (None if unreadable) and existence: file-system facts
 pub uninterp spec fn fs_read(p: PV) -> Option<Seq<char>>;
@@ -71,10 +101,7 @@ pub mod cfg_ax {
 pub use cfg_ax::*;
 
 impl Config {
-    // callee contracts assumed here: toml parsing is abstract; Default is the derived all-empty value
-    #[verifier::external_body]
-    fn parse(content: &str, path: &Path) -> (c: Self) ensures cfg_view(&c) == parse_cfg(content@)
-    { unimplemented!() }
+    // callee contract assumed here: Default is the derived all-empty value
     #[verifier::external_body]
     pub fn default() -> (c: Self) ensures cfg_view(&c) == empty_cfg()
     { unimplemented!() }
@@ -92,6 +119,16 @@ impl Config {
     #[verifier::external_body]
     fn vp_join_pyproject(workspace_root: &Path) -> (r: PathBuf) ensures pbv(&r) == pyproject_pv(pv(workspace_root))
     { workspace_root.join("pyproject.toml") }
+
+/*@ extract src/config/mod.rs parse
+@tags C19 C11
+@ret c
+@rename unwrap_or_default vp_unwrap_or_default
+@closure and_then:1 |t: Tool| -> (r: Option<RawConfig>) ensures r == t.pytest_language_server
+@sig
+    // an unparsable text gives the defaults (and nothing else happens: no panic); otherwise exactly from_raw of the table
+    ensures cfg_view(&c) == parse_cfg(content@),
+@*/
 
 /*@ extract src/config/mod.rs from_raw
 @tags C19
@@ -144,6 +181,13 @@ impl Config {
 
 // ---- L2: property C19 (configuration part) from the operational specification -------------------
 /// a valid code listed in the raw configuration is disabled in the result, whatever else is listed
+//@tags C19
+/// C19 "an unparsable pyproject.toml is ignored ... and never disables the remaining settings or the server":
+/// Config::parse (proved == parse_cfg, no panic) yields the defaults, under which no diagnostic code is disabled
+pub proof fn lemma_C19_unparsable_file_is_ignored(content: Seq<char>, code: Seq<char>)
+    requires toml_parse(content) is None
+    ensures parse_cfg(content) == empty_cfg(), !op_is_disabled(parse_cfg(content), code)
+{}
 //@tags C19
 pub proof fn lemma_C19_valid_listed_code_is_disabled(r: RawV, code: Seq<char>)
     requires valid_code(code), r.disabled.contains(code),
